@@ -2024,8 +2024,11 @@ def gen_badparams(g):
     cases = [
         ('no_load_speed<=0', 'DCMotor', dict(good_motor, w0=q('AngularSpeed', r.choice([0.0, -1.0, -300.0])))),
         ('maximum_torque<=0', 'DCMotor', dict(good_motor, Tmax=q('Torque', r.choice([0.0, -0.1, -5.0])))),
-        ('no_load_current<0', 'DCMotor', dict(good_motor, i0=q('Current', r.choice([-0.01, -1.0])), imax=q('Current', 2.0))),
-        ('maximum_current<=0', 'DCMotor', dict(good_motor, i0=q('Current', 0.1), imax=q('Current', r.choice([0.0, -2.0])))),
+        # (each optional current alone, or together with the other one)
+        ('no_load_current<0', 'DCMotor', dict(good_motor, i0=q('Current', r.choice([-0.01, -1.0])),
+                                              **({'imax': q('Current', 2.0)} if g.chance(0.5) else {}))),
+        ('maximum_current<=0', 'DCMotor', dict(good_motor, imax=q('Current', r.choice([0.0, -2.0, -0.0])),
+                                               **({'i0': q('Current', 0.1)} if g.chance(0.5) else {}))),
         ('no_load_current>=maximum', 'DCMotor', dict(good_motor, i0=q('Current', r.choice([2.0, 3.0, 2.0000001])), imax=q('Current', 2.0))),
         ('pwm_outside', 'DCMotor', dict(good_motor, pwm=r.choice([1.0000001, -1.0000001, 2, -7.5]))),
         ('teeth<minimum', 'SpurGear', {'z': r.choice([9, 5, 1, 0, -3])}),
